@@ -314,15 +314,10 @@ def r4_uid_filter(report, repo):
                'the logger name (e.g. a startswith test has no uid boundary: '
                'uid "x:1" also captures "x:10")')
 
-  def classify(expr, steps):
-    if isinstance(expr, ast.Name):
-      return None
-    if dotted(expr) == 'match':
-      return 'matched'
-    return None
+  mname = lib.local_from(f, lib.calls(name='RECORD_LOGGER_RE.match'), 'match')
 
   def classify2(expr, steps):
-    if isinstance(expr, ast.Name) and expr.id == 'match':
+    if isinstance(expr, ast.Name) and expr.id == mname:
       return 'matched'
     if isinstance(expr, ast.Compare) and len(expr.ops) == 1:
       t = norm(expr)
